@@ -59,6 +59,9 @@ def check(ctx: Ctx, stream: str, i: int, op, label: str) -> None:
         ctx.count('excluded:lazy-inverse')
         ctx.case(sx(esx), False)
         return
+    # the hypotheses of transpose_is_adjoint_closed, decided by the driver (dense einsum and broadcasting diagonal
+    # leaves are the theorem's two documented exclusions: their own kernel theorems cover them)
+    ctx.in_domain(stream, i, esx, cfg, cmd='valid-T', allow=('adjoint:',))
     st, t = safe(lambda: op.T)
     rep = ctx.model.ask(['T', esx])
     if st != 'ok':
